@@ -875,7 +875,14 @@ pub fn map_from_iter<const N: usize>(pulls: bool, xs: &[(K, V)]) -> MapN<N> {
 }
 
 pub fn map_eq<const N: usize, const M: usize>(a: &MapN<N>, b: &MapN<M>) -> String {
-    format!("{}", mm(|| a == b) as u8)
+    let mk = ctl::mark();
+    let e = mm(|| a == b);
+    // `!=` (std's provided `ne` unless the crate overrides it) must be the negation
+    let n = ctl::shadow(mk, || mm(|| a != b));
+    if n == e {
+        return format!("\"a == b is {e} and a != b is {n}\"");
+    }
+    format!("{}", e as u8)
 }
 
 pub fn snap_map<const N: usize>(m: &MapN<N>) -> String {
@@ -1185,7 +1192,15 @@ pub fn set_extend_from<const N: usize, const M: usize>(dst: &mut SetN<N>, src: S
 
 pub fn set_pred<const N: usize, const M: usize>(a: &SetN<N>, b: &SetN<M>, op: &SetOp) -> String {
     let r = match op {
-        SetOp::Eq(_) => mm(|| a == b),
+        SetOp::Eq(_) => {
+            let mk = ctl::mark();
+            let e = mm(|| a == b);
+            let n = ctl::shadow(mk, || mm(|| a != b));
+            if n == e {
+                return format!("\"a == b is {e} and a != b is {n}\"");
+            }
+            e
+        }
         SetOp::IsSubset(_) => mm(|| a.is_subset(b)),
         SetOp::IsSuperset(_) => mm(|| a.is_superset(b)),
         SetOp::IsDisjoint(_) => mm(|| a.is_disjoint(b)),
